@@ -592,6 +592,21 @@ pub fn run_module(args: &Args) {
                                     field("b", TypeKind::Optional(Box::new(TypeKind::Never)))],
                     });
                 }
+                "recursive" => {
+                    // a struct that contains itself (directly and through an option): only a
+                    // hand-built module can say this, the compiler rejects cyclic definitions
+                    struct_defs.push(StructDef {
+                        name: ident("S"),
+                        items: vec![field("a", TypeKind::Struct(ident("S"))), field("b", TypeKind::Bool)],
+                    });
+                }
+                "recursive-opt" => {
+                    struct_defs.push(StructDef {
+                        name: ident("S"),
+                        items: vec![field("a", TypeKind::Optional(Box::new(TypeKind::Struct(ident("S"))))),
+                                    field("b", TypeKind::Bool)],
+                    });
+                }
                 "enumdup" => {
                     enum_defs.push(EnumDef {
                         name: ident("E"),
@@ -617,6 +632,11 @@ pub fn run_module(args: &Args) {
                 Ok(m) => m,
                 Err(_) => return "unsupported-version".to_string(),
             };
+            // the host-facing codec entry points on whatever schema the module carries
+            let _ = machine.deserialize_struct(ident("S"), &[1, 1, 1, 1, 1, 1, 1, 1]);
+            let _ = machine.deserialize_struct(ident("S"), &vec![1u8; 1 << 20]);
+            let _ = machine.deserialize_struct(ident("S"), &bt.good);
+            let _ = machine.serialize_struct(&s_full());
             let mut io = StubIo::new(case.s("io"));
             let this = s_full();
             let env = Struct::new(ident("Envelope"), Vec::<(Identifier, Value)>::new());
